@@ -320,7 +320,7 @@ class Gen:
         out += ["", f"#ifndef {guard}", f"# define {guard}", ""]
         if r.random() < 0.6:
             for _ in range(r.randrange(1, 3)):
-                out.append(f"# include {self.pick(['<stdlib.h>', '<unistd.h>', '<stddef.h>'])}")
+                out.append(f"# include {self.pick(['<stdlib.h>', '<unistd.h>', '<stddef.h>', '\"libft.h\"', '\"ft_printf.h\"'])}")
             out.append("")
         if r.random() < 0.5:
             for _ in range(r.randrange(1, 3)):
@@ -382,6 +382,12 @@ def gen_conforming(rng, kind=None):
 # --------------------------------------------------------------------------------------
 # violating edits (DESIGN 4.2 catalogue, workload only)
 # --------------------------------------------------------------------------------------
+# edits that leave the segmentation into statements unchanged (measured on 4 000 variants: the count never differed)
+COUNT_PRESERVING = {"brace_same_line", "comma_space", "double_space", "extra_tab", "guard_define_other", "guard_lower", "guard_wrong_symbol",
+                    "header_field_removed", "header_slashes", "kw_glued", "no_void", "op_nospace", "return_noparen", "space_before_semi",
+                    "spaces_indent", "tab_in_expr", "trailing_space", "upper_ident", "stray_eol_preproc"}
+
+
 def gen_violating(rng, name, content):
     """One seeded edit operator applied to a conforming file. Returns (content, operator)."""
     lines = content.split("\n")
@@ -445,8 +451,9 @@ def gen_violating(rng, name, content):
         return "\n".join(lines), op
     if op == "stray_eol_preproc" and pre_idx:
         j = pre_idx[rng.randrange(len(pre_idx))]
-        lines[j] += rng.choice([" \\ ", " \\\t", " @", " \\ // c", "\\"])
-        return "\n".join(lines), op
+        tail = rng.choice([" \\ ", " \\\t", " @", " \\ // c", "\\"])
+        lines[j] += tail
+        return "\n".join(lines), (op if tail in (" \\ ", " \\\t", " @") else "splice_eol_preproc")
 
     def pick(idx):
         return idx[rng.randrange(len(idx))] if idx else None
@@ -574,6 +581,18 @@ def specials():
                 "int\t\tft_a(int a, ...);\nstatic void\tft_b(void (*f)(int), t_a *l);\nt_a\t\t*ft_c(const char *restrict s, unsigned long n);\n")
     out.append(("zoo_glob.h", header42("zoo_glob.h") + "\n#ifndef ZOO_GLOB_H\n# define ZOO_GLOB_H\n\n" + zoo_glob + "\n#endif\n", "zoo"))
     out.append(("zoo_glob.c", header42("zoo_glob.c") + "\n" + zoo_glob, "zoo"))
+    zoo_pre = ("# include \"libft.h\"\n# define MAX 3\n# define STR \"s\"\n\n# ifdef MAX\n#  define B MAX\n# else\n#  define B 2\n# endif\n"
+               "# if defined(MAX) && (MAX > 2 || !B)\n#  define W 1\n# elif MAX == 3\n#  define W 2\n# endif\n# pragma once\n# undef W\n\n"
+               "int\tft_a(int a);\n")
+    out.append(("zoo_preproc.h", header42("zoo_preproc.h") + "\n#ifndef ZOO_PREPROC_H\n# define ZOO_PREPROC_H\n\n" + zoo_pre + "\n#endif\n", "zoo"))
+    out.append(("zoo_preproc.c", header42("zoo_preproc.c") + "\n#include \"libft.h\"\n\n#define MAX 3\n#ifdef MAX\n# define B MAX\n#endif\n\nint\tmain(void)\n{\n\treturn (B);\n}\n", "zoo"))
+    # legal but unusual preprocessor constructs, one per file (most are a fatal diagnostic today; all must get an answer)
+    odd = ["# include ZOO_ODD_H", "# include_next <stdio.h>", "# line 3 \"f.c\"", "#", "# define F(x, ...) g(x, __VA_ARGS__)", "# define S(x) #x",
+           "# define P(a, b) a##b", "# if __has_include(<x.h>)\n# endif", "_Pragma(\"once\")", "%:define D 1", "# define E", "# ifdef\n# endif",
+           "# if 1 ? 2 : 3\n# endif", "# if 'a' == 97\n# endif", "# elif 1", "# else", "# endif", "# error", "# define X(", "# include <a b.h>",
+           "# include \"a.h\" junk", "# define ZOO_ODD_H 2", "# undef", "# if 0x1F & 0b1\n# endif", "# if (1\n# endif", "# include <stdio.h"]
+    for k, d in enumerate(odd):
+        out.append((f"zoo_odd{k}.h", header42(f"zoo_odd{k}.h") + f"\n#ifndef ZOO_ODD_H\n# define ZOO_ODD_H\n\n{d}\n\nint\tft_a(int a);\n\n#endif\n", "odd"))
     # statements whose handling depends on the debug level in the rules (fatal by default, tolerated under -d)
     for k, body in enumerate(["\tgoto 1;\n", "\tgoto ;\n", "\tgoto *p;\n", "\tgoto (a);\n", "\tint\ti;\n\n\ti = 0;\n\t) i++;\n"]):
         out.append((f"zoo_dbg{k}.c", ok_func(f"zoo_dbg{k}.c", body=body + "\treturn (0);\n"), "zoo"))
